@@ -151,6 +151,13 @@ class Theory:
             for _, v in sorted(inst.items()):
                 if not v.is_tconst():
                     raise TheoryException("When overloading %s with %s: cannot instantiate to type variables" % (aT, T))
+
+            # An instance can be declared only once: a second declaration (for example
+            # a second definition of plus on nat) would not be conservative.
+            cname = self.get_overload_const_name(name, T)
+            if cname in self.get_data("overload_inst"):
+                raise TheoryException("Constant %s :: %s is already declared" % (name, T))
+            self.add_data("overload_inst", cname, T)
         else:
             # Make sure this name does not already occur in the theory
             if self.has_term_sig(name):
@@ -540,6 +547,7 @@ def EmptyTheory():
     thy.add_data_type("theorems_svar")  # cache of version of theorem with SVar.
     thy.add_data_type("attributes")
     thy.add_data_type("overload")
+    thy.add_data_type("overload_inst")  # declared instances of overloaded constants.
 
     # Fundamental types.
     thy.add_type_sig("bool", 0)
